@@ -476,8 +476,8 @@ fn gen_random(out: &mut Out) {
         vec![(1, 2, true), (2, 8, true), (3, 12, true), (4, 8, true), (5, 2, true), (6, 1, true),
              (7, 8, false), (8, 8, false), (9, 8, false), (10, 8, false), (11, 8, false), (12, 10, false)]
     } else {
-        vec![(1, 4, true), (2, 60, true), (3, 150, true), (4, 120, true), (5, 40, true), (6, 10, true),
-             (7, 100, false), (8, 100, false), (9, 100, false), (10, 100, false), (11, 100, false), (12, 150, false)]
+        vec![(1, 2, true), (2, 30, true), (3, 60, true), (4, 40, true), (5, 10, true), (6, 3, true),
+             (7, 30, false), (8, 30, false), (9, 30, false), (10, 30, false), (11, 30, false), (12, 40, false)]
     };
     for (n, count, all_perms) in plan {
         for _ in 0..count {
@@ -515,7 +515,7 @@ fn gen_random(out: &mut Out) {
         }
     }
     // CFG-shaped graphs with the bottom-up / top-down orders of forward_interprocedural_fixpoint.rs
-    let ncfg = out.size(25, 600);
+    let ncfg = out.size(25, 200);
     let mut made = 0;
     while made < ncfg {
         let prog = gen_prog(&mut rng);
